@@ -310,6 +310,12 @@ static cfg_opt_t *cfg_getopt_secidx(cfg_t *cfg, const char *name,
 			title = parse_title(name, &len);
 			if (!title)
 				break;
+			if (name[len] != '|' && name[len] != '\0') {
+				/* Junk after the closing quote of the title */
+				free(title);
+				title = NULL;
+				break;
+			}
 			if (is_set(CFGF_TITLE, opt->flags)) {
 				i = cfg_opt_gettsecidx(opt, title);
 				break;
